@@ -101,6 +101,8 @@ func (r ParticipationRegistry) MarshalYAML() (interface{}, error) {
 }
 
 func (r *ParticipationRegistry) Deserialize(spec *common.Spec, dr *codec.DecodingReader) error {
+	// decode into a recycled object: drop what it holds (dr.List appends)
+	*r = (*r)[:0]
 	return dr.List(func() codec.Deserializable {
 		i := len(*r)
 		*r = append(*r, ParticipationFlags(0))
